@@ -56,6 +56,10 @@ func leadingCommentEnd(text string) (end int) {
 		if len(remainingText) < 4 || remainingText[:2] != "/*" {
 			break
 		}
+		if remainingText[2] == '!' {
+			// /*! ... */ is not a comment for MySQL: the server executes what is inside, it belongs to the statement
+			break
+		}
 		commentLength := 4 + strings.Index(remainingText[2:], "*/")
 		if commentLength < 4 {
 			// Missing end comment :/
@@ -93,6 +97,10 @@ func trailingCommentStart(text string) (start int) {
 		startCommentPos := strings.LastIndex(text[:reducedLen-2], "/*")
 		if startCommentPos < 0 {
 			// Badly formatted sql :/
+			break
+		}
+		if strings.HasPrefix(text[startCommentPos:], "/*!") {
+			// /*! ... */ is not a comment for MySQL: the server executes what is inside, it belongs to the statement
 			break
 		}
 
